@@ -69,3 +69,16 @@ func (v *VerifPacketConn) Feed(data []byte) {
 	n := copy(buf, data)
 	v.pc.readCh <- &packet{pooledBuf: buf, n: n, addr: v.pc.addr}
 }
+
+// TryFeed is Feed that gives up (returning false) when the association's queue is full.
+func (v *VerifPacketConn) TryFeed(data []byte) bool {
+	buf := udpBufPool.Get().([]byte)
+	n := copy(buf, data)
+	select {
+	case v.pc.readCh <- &packet{pooledBuf: buf, n: n, addr: v.pc.addr}:
+		return true
+	default:
+		udpBufPool.Put(buf)
+		return false
+	}
+}
